@@ -250,7 +250,7 @@ def cancellation_and_timeout(rep: Report, prog: Program) -> None:
     from .c12 import forwarding
     from .common import RuleView
 
-    forwarding(RuleView(rep, "R13.7", keep=lambda key, msg: "abort_if" in key or "abort_if" in msg), prog)
+    forwarding(RuleView(rep, "R13.7", keep=lambda key, msg: "abort_if" in key or "abort_if" in msg), prog, strict=False)
     rep.floor("R13.7", 100)
 
     rep.rule("R13.5", "_call_with_timeout re-raises what the worker raised unchanged, except the documented future-timeout -> TimeoutError mapping")
